@@ -1,21 +1,29 @@
-(* C03 - single SYNTAX faults, family A: the `;` that closes an assignment or a call statement is missing.
+(* C03 - single SYNTAX faults: ONE required closing token is missing.
 
-   A program with exactly one such fault is described DIRECTLY (a zipper through Spec/Grammar.v): `fstmt` is a statement
-   in which exactly one assignment / call has lost its `;` (the leaves FAsg / FCal), everything around it being ordinary
-   abstract syntax; `fstmts` a statement sequence with one such statement, `fdecl` a procedure whose body is one, `fprog`
-   a program with one such procedure.
+   A program with exactly one such fault is described DIRECTLY, as a zipper through Spec/Grammar.v: `fstmt` is a statement
+   in which exactly one token is missing (at a leaf), everything around it being ordinary abstract syntax; `fstmts` a
+   statement sequence with one such statement, `fdecl` a global declaration with one fault, `fprog` a program with one
+   such declaration.  The leaves:
+     FAsg, FCal            the `;` that closes an assignment / a call statement
+     FCalP                 the `)` that closes the argument list of a call statement
+     FIfP, FIfPE, FWhlP    the `)` that closes the condition of an if (without / with else) / a while
+     FProcV                the `;` of a local variable declaration
+     FProcC                the `}` that closes a procedure body
+     FType                 the `;` of a type declaration
 
-     orig_*     the VALID program the faulty one stems from: the `;` put back (with an empty comment slot in front of it;
-                comments that stood in front of the deleted `;` now stand in front of the next token and belong to ITS slot)
-     ffl_*      the token kinds of the faulty program  (= `fl_* (orig_* _)` with that one Semic removed: ffl_ins)
-     fx_*       the tree SPL's parser is to build: the mandated tree of the original, except that
-                  - the node of the statement that lost its `;` ends one token earlier and carries ONE error,
-                    MissingTrailingSemic with the EMPTY range (g, g), g = the index of the token in front of the gap,
-                  - every range / Reference offset behind the gap is one smaller
-     gap_*      g, relative to the first token of the construct
-     after_*    the tokens behind the gap (to say: the token behind the gap is not `;` - otherwise nothing is missing)
+     orig_*     the VALID program the faulty one stems from: the token put back, with an empty comment slot in front of it
+                (comments that stood in front of the deleted token now stand in front of the next one and belong to ITS slot)
+     gk_*       the kind of the missing token, msg_of_kind: the message SPL prescribes for it
+     ffl_*      the token kinds of the faulty program  (= `fl_* (orig_* _)` with that one token removed: ffl_ins, fflatten_ins)
+     gap_*      g: the index of the token in front of the gap (relative to the construct's first token; gap_prog: absolute)
+     fxg_* E    the tree SPL's parser is to build (fx_* := fxg_* e_real): the mandated tree of the original, except that
+                  - the node whose closing token is missing carries ONE error, msg_of_kind with the EMPTY range (g, g),
+                  - every range / Reference offset behind the gap is one smaller;
+                fx0_* := fxg_* e_none is the same tree without the error (used to talk about the analysis)
+     after_*    the tokens behind the gap (to say: behind a missing `;` there is no `;` - otherwise nothing is missing)
 
-   Proofs: SynFaultsStmt.v (statements), SynFaultsProg.v (programs, parse), SynFaultsText.v (errors, analysis, texts). *)
+   Proofs: SynFaultsStmt.v (statements), SynFaultsProg.v (declarations, programs, parse), SynFaultsText.v (errors, texts),
+   SynFaultsSem.v (no semantic follow-up). *)
 From Coq Require Import List Lia Arith Bool.
 From Spl Require Import Spec.Grammar Model.Parser.
 Import ListNotations.
@@ -25,6 +33,10 @@ Local Open Scope nat_scope.
 Inductive fstmt :=
 | FAsg (v : avar) (c1 : cs) (e : acmp)                                  (* v c1 := e            `;` missing *)
 | FCal (c1 : cs) (f : text) (c2 : cs) (a : aargs) (c3 : cs)             (* c1 f c2 ( a c3 )     `;` missing *)
+| FCalP (c1 : cs) (f : text) (c2 : cs) (a : aargs) (c4 : cs)            (* c1 f c2 ( a  c4 ;    `)` missing *)
+| FIfP (c1 c2 : cs) (e : acmp) (t : astmt)                              (* c1 if c2 ( e  t      `)` missing *)
+| FIfPE (c1 c2 : cs) (e : acmp) (t : astmt) (c4 : cs) (s : astmt)       (* c1 if c2 ( e  t c4 else s *)
+| FWhlP (c1 c2 : cs) (e : acmp) (b : astmt)                             (* c1 while c2 ( e  b   `)` missing *)
 | FIfT (c1 c2 : cs) (e : acmp) (c3 : cs) (t : fstmt)                    (* if without else, fault in the branch *)
 | FIfE1 (c1 c2 : cs) (e : acmp) (c3 : cs) (t : fstmt) (c4 : cs) (s : astmt)   (* fault in the then-branch *)
 | FIfE2 (c1 c2 : cs) (e : acmp) (c3 : cs) (t : astmt) (c4 : cs) (s : fstmt)   (* fault in the else-branch *)
@@ -34,8 +46,20 @@ with fstmts :=
 | FHere (s : fstmt) (r : astmts)
 | FLater (s : astmt) (r : fstmts).
 
+Scheme fstmt_mind := Induction for fstmt Sort Prop
+  with fstmts_mind := Induction for fstmts Sort Prop.
+Combined Scheme fstmt_mutind from fstmt_mind, fstmts_mind.
+
+Inductive fdecl :=
 (* c1 proc c2 x c3 ( ps c4 ) c5 { vs b c6 } with the fault in b *)
-Inductive fdecl := FProc (c1 c2 : cs) (x : text) (c3 : cs) (ps : aparams) (c4 c5 : cs) (vs : list avardecl) (b : fstmts) (c6 : cs).
+| FProc (c1 c2 : cs) (x : text) (c3 : cs) (ps : aparams) (c4 c5 : cs) (vs : list avardecl) (b : fstmts) (c6 : cs)
+(* ... { vs1  d1 var d2 y d3 : t  vs2 b c6 }: the `;` of that variable declaration is missing *)
+| FProcV (c1 c2 : cs) (x : text) (c3 : cs) (ps : aparams) (c4 c5 : cs) (vs1 : list avardecl)
+         (d1 d2 : cs) (y : text) (d3 : cs) (t : atype) (vs2 : list avardecl) (b : astmts) (c6 : cs)
+(* ... { vs b : the closing `}` is missing *)
+| FProcC (c1 c2 : cs) (x : text) (c3 : cs) (ps : aparams) (c4 c5 : cs) (vs : list avardecl) (b : astmts)
+(* c1 type c2 x c3 = t : the `;` is missing *)
+| FType (c1 c2 : cs) (x : text) (c3 : cs) (t : atype).
 
 Record fprog := { fp_pre : list adecl; fp_decl : fdecl; fp_post : list adecl; fp_ceof : cs }.
 
@@ -44,6 +68,10 @@ Fixpoint orig_stmt (s : fstmt) : astmt :=
   match s with
   | FAsg v c1 e => SAsg v c1 e []
   | FCal c1 f c2 a c3 => SCal c1 f c2 a c3 []
+  | FCalP c1 f c2 a c4 => SCal c1 f c2 a [] c4
+  | FIfP c1 c2 e t => SIfT c1 c2 e [] t
+  | FIfPE c1 c2 e t c4 s' => SIfE c1 c2 e [] t c4 s'
+  | FWhlP c1 c2 e b => SWhl c1 c2 e [] b
   | FIfT c1 c2 e c3 t => SIfT c1 c2 e c3 (orig_stmt t)
   | FIfE1 c1 c2 e c3 t c4 s' => SIfE c1 c2 e c3 (orig_stmt t) c4 s'
   | FIfE2 c1 c2 e c3 t c4 s' => SIfE c1 c2 e c3 t c4 (orig_stmt s')
@@ -56,17 +84,58 @@ with orig_stmts (b : fstmts) : astmts :=
   | FLater s r => SCons s (orig_stmts r)
   end.
 
+Definition fvar (d1 d2 : cs) (y : text) (d3 : cs) (t : atype) : avardecl :=
+  {| v_c1 := d1; v_c2 := d2; v_x := y; v_c3 := d3; v_t := t; v_c4 := [] |}.
+
 Definition orig_decl (d : fdecl) : adecl :=
-  match d with FProc c1 c2 x c3 ps c4 c5 vs b c6 => DProc c1 c2 x c3 ps c4 c5 vs (orig_stmts b) c6 end.
+  match d with
+  | FProc c1 c2 x c3 ps c4 c5 vs b c6 => DProc c1 c2 x c3 ps c4 c5 vs (orig_stmts b) c6
+  | FProcV c1 c2 x c3 ps c4 c5 vs1 d1 d2 y d3 t vs2 b c6 => DProc c1 c2 x c3 ps c4 c5 (vs1 ++ fvar d1 d2 y d3 t :: vs2) b c6
+  | FProcC c1 c2 x c3 ps c4 c5 vs b => DProc c1 c2 x c3 ps c4 c5 vs b []
+  | FType c1 c2 x c3 t => DType c1 c2 x c3 t []
+  end.
 
 Definition orig_prog (p : fprog) : aprog :=
   {| a_decls := fp_pre p ++ orig_decl (fp_decl p) :: fp_post p; a_ceof := fp_ceof p |}.
+
+(* ---- the missing token and its message ---- *)
+Fixpoint gk_stmt (s : fstmt) : kind :=
+  match s with
+  | FAsg _ _ _ | FCal _ _ _ _ _ => Semic
+  | FCalP _ _ _ _ _ | FIfP _ _ _ _ | FIfPE _ _ _ _ _ _ | FWhlP _ _ _ _ => RParen
+  | FIfT _ _ _ _ t | FIfE1 _ _ _ _ t _ _ | FIfE2 _ _ _ _ _ _ t | FWhl _ _ _ _ t => gk_stmt t
+  | FBlk _ b _ => gk_stmts b
+  end
+with gk_stmts (b : fstmts) : kind :=
+  match b with FHere s _ => gk_stmt s | FLater _ r => gk_stmts r end.
+
+Definition gk_decl (d : fdecl) : kind :=
+  match d with
+  | FProc _ _ _ _ _ _ _ _ b _ => gk_stmts b
+  | FProcV _ _ _ _ _ _ _ _ _ _ _ _ _ _ _ _ => Semic
+  | FProcC _ _ _ _ _ _ _ _ _ => RCurly
+  | FType _ _ _ _ _ => Semic
+  end.
+
+Definition gk_prog (p : fprog) : kind := gk_decl (fp_decl p).
+
+Definition msg_of_kind (k : kind) : pmsg :=
+  match k with
+  | Semic => MissingTrailingSemic
+  | RParen => MissingClosing 41%N
+  | RBracket => MissingClosing 93%N
+  | _ => MissingClosing 125%N
+  end.
 
 (* ---- its tokens ---- *)
 Fixpoint ffl_stmt (s : fstmt) : list kind :=
   match s with
   | FAsg v c1 e => fl_var v ++ cm c1 ++ Assign :: fl_cmp e
   | FCal c1 f c2 a c3 => cm c1 ++ Ident f :: cm c2 ++ LParen :: fl_sep fl_cmp a ++ cm c3 ++ [RParen]
+  | FCalP c1 f c2 a c4 => cm c1 ++ Ident f :: cm c2 ++ LParen :: fl_sep fl_cmp a ++ cm c4 ++ [Semic]
+  | FIfP c1 c2 e t => cm c1 ++ KIf :: cm c2 ++ LParen :: fl_cmp e ++ fl_stmt t
+  | FIfPE c1 c2 e t c4 s' => cm c1 ++ KIf :: cm c2 ++ LParen :: fl_cmp e ++ fl_stmt t ++ cm c4 ++ KElse :: fl_stmt s'
+  | FWhlP c1 c2 e b => cm c1 ++ KWhile :: cm c2 ++ LParen :: fl_cmp e ++ fl_stmt b
   | FIfT c1 c2 e c3 t => cm c1 ++ KIf :: cm c2 ++ LParen :: fl_cmp e ++ cm c3 ++ RParen :: ffl_stmt t
   | FIfE1 c1 c2 e c3 t c4 s' =>
       cm c1 ++ KIf :: cm c2 ++ LParen :: fl_cmp e ++ cm c3 ++ RParen :: ffl_stmt t ++ cm c4 ++ KElse :: fl_stmt s'
@@ -81,11 +150,23 @@ with ffl_stmts (b : fstmts) : list kind :=
   | FLater s r => fl_stmt s ++ ffl_stmts r
   end.
 
+(* d1 var d2 y d3 : t   (no `;`) *)
+Definition ffl_var (d1 d2 : cs) (y : text) (d3 : cs) (t : atype) : list kind :=
+  cm d1 ++ KVar :: cm d2 ++ Ident y :: cm d3 ++ Colon :: fl_type t.
+
+(* c1 proc c2 x c3 ( ps c4 ) c5 { *)
+Definition fl_prochead (c1 c2 : cs) (x : text) (c3 : cs) (ps : aparams) (c4 c5 : cs) : list kind :=
+  cm c1 ++ KProc :: cm c2 ++ Ident x :: cm c3 ++ LParen :: fl_sep fl_param ps ++ cm c4 ++ RParen :: cm c5 ++ [LCurly].
+
 Definition ffl_decl (d : fdecl) : list kind :=
   match d with
   | FProc c1 c2 x c3 ps c4 c5 vs b c6 =>
-      cm c1 ++ KProc :: cm c2 ++ Ident x :: cm c3 ++ LParen :: fl_sep fl_param ps ++ cm c4 ++ RParen :: cm c5 ++ LCurly ::
-      flat_map fl_vardecl vs ++ ffl_stmts b ++ cm c6 ++ [RCurly]
+      fl_prochead c1 c2 x c3 ps c4 c5 ++ flat_map fl_vardecl vs ++ ffl_stmts b ++ cm c6 ++ [RCurly]
+  | FProcV c1 c2 x c3 ps c4 c5 vs1 d1 d2 y d3 t vs2 b c6 =>
+      fl_prochead c1 c2 x c3 ps c4 c5 ++ flat_map fl_vardecl vs1 ++ ffl_var d1 d2 y d3 t ++ flat_map fl_vardecl vs2 ++
+      fl_stmts b ++ cm c6 ++ [RCurly]
+  | FProcC c1 c2 x c3 ps c4 c5 vs b => fl_prochead c1 c2 x c3 ps c4 c5 ++ flat_map fl_vardecl vs ++ fl_stmts b
+  | FType c1 c2 x c3 t => cm c1 ++ KType :: cm c2 ++ Ident x :: cm c3 ++ EqT :: fl_type t
   end.
 
 (* the token kinds of the faulty program, without the final Eof *)
@@ -93,11 +174,15 @@ Definition fflatten (p : fprog) : list kind :=
   flat_map fl_decl (fp_pre p) ++ ffl_decl (fp_decl p) ++ flat_map fl_decl (fp_post p) ++ cm (fp_ceof p).
 
 (* ---- the gap: index of the token in front of it, relative to the construct's first token ---- *)
+Definition o_cond (c1 c2 : cs) : nat := len c1 + 1 + len c2 + 1.     (* c1 if/while/f c2 (   *)
+
 Fixpoint gap_stmt (s : fstmt) : nat :=
   match s with
   | FAsg _ _ _ | FCal _ _ _ _ _ => len (ffl_stmt s) - 1
-  | FIfT c1 c2 e c3 t | FIfE1 c1 c2 e c3 t _ _ | FWhl c1 c2 e c3 t => len c1 + 1 + len c2 + 1 + len (fl_cmp e) + len c3 + 1 + gap_stmt t
-  | FIfE2 c1 c2 e c3 t c4 s' => len c1 + 1 + len c2 + 1 + len (fl_cmp e) + len c3 + 1 + len (fl_stmt t) + len c4 + 1 + gap_stmt s'
+  | FCalP c1 f c2 a c4 => o_cond c1 c2 + len (fl_sep fl_cmp a) - 1
+  | FIfP c1 c2 e _ | FIfPE c1 c2 e _ _ _ | FWhlP c1 c2 e _ => o_cond c1 c2 + len (fl_cmp e) - 1
+  | FIfT c1 c2 e c3 t | FIfE1 c1 c2 e c3 t _ _ | FWhl c1 c2 e c3 t => o_cond c1 c2 + len (fl_cmp e) + len c3 + 1 + gap_stmt t
+  | FIfE2 c1 c2 e c3 t c4 s' => o_cond c1 c2 + len (fl_cmp e) + len c3 + 1 + len (fl_stmt t) + len c4 + 1 + gap_stmt s'
   | FBlk c1 b _ => len c1 + 1 + gap_stmts b
   end
 with gap_stmts (b : fstmts) : nat :=
@@ -108,9 +193,10 @@ with gap_stmts (b : fstmts) : nat :=
 
 Definition gap_decl (d : fdecl) : nat :=
   match d with
-  | FProc c1 c2 x c3 ps c4 c5 vs b c6 =>
-      len c1 + 1 + len c2 + 1 + len c3 + 1 + len (fl_sep fl_param ps) + len c4 + 1 + len c5 + 1 + len (flat_map fl_vardecl vs)
-      + gap_stmts b
+  | FProc c1 c2 x c3 ps c4 c5 vs b c6 => len (fl_prochead c1 c2 x c3 ps c4 c5) + len (flat_map fl_vardecl vs) + gap_stmts b
+  | FProcV c1 c2 x c3 ps c4 c5 vs1 d1 d2 y d3 t vs2 b c6 =>
+      len (fl_prochead c1 c2 x c3 ps c4 c5) + len (flat_map fl_vardecl vs1) + len (ffl_var d1 d2 y d3 t) - 1
+  | FProcC _ _ _ _ _ _ _ _ _ | FType _ _ _ _ _ => len (ffl_decl d) - 1
   end.
 
 (* absolute: the index, in the token vector, of the token in front of the gap *)
@@ -120,6 +206,9 @@ Definition gap_prog (p : fprog) : nat := len (flat_map fl_decl (fp_pre p)) + gap
 Fixpoint after_stmt (s : fstmt) (rest : list kind) : list kind :=
   match s with
   | FAsg _ _ _ | FCal _ _ _ _ _ => rest
+  | FCalP _ _ _ _ c4 => cm c4 ++ Semic :: rest
+  | FIfP _ _ _ t | FWhlP _ _ _ t => fl_stmt t ++ rest
+  | FIfPE _ _ _ t c4 s' => fl_stmt t ++ cm c4 ++ KElse :: fl_stmt s' ++ rest
   | FIfT _ _ _ _ t | FWhl _ _ _ _ t => after_stmt t rest
   | FIfE1 _ _ _ _ t c4 s' => after_stmt t (cm c4 ++ KElse :: fl_stmt s' ++ rest)
   | FIfE2 _ _ _ _ _ _ s' => after_stmt s' rest
@@ -132,7 +221,11 @@ with after_stmts (b : fstmts) (rest : list kind) : list kind :=
   end.
 
 Definition after_decl (d : fdecl) (rest : list kind) : list kind :=
-  match d with FProc _ _ _ _ _ _ _ _ b c6 => after_stmts b (cm c6 ++ RCurly :: rest) end.
+  match d with
+  | FProc _ _ _ _ _ _ _ _ b c6 => after_stmts b (cm c6 ++ RCurly :: rest)
+  | FProcV _ _ _ _ _ _ _ _ _ _ _ _ _ vs2 b c6 => flat_map fl_vardecl vs2 ++ fl_stmts b ++ cm c6 ++ RCurly :: rest
+  | FProcC _ _ _ _ _ _ _ _ _ | FType _ _ _ _ _ => rest
+  end.
 
 Definition after_prog (p : fprog) : list kind :=
   after_decl (fp_decl p) (flat_map fl_decl (fp_post p) ++ cm (fp_ceof p) ++ [Eof]).
@@ -145,69 +238,122 @@ Fixpoint next_sig (l : list kind) : option kind :=
   | k :: _ => Some k
   end.
 
-(* the token behind the gap is not `;`: with a `;` there, nothing would be missing (the `;` of an empty statement
-   would close the statement) *)
-Definition gap_open (l : list kind) : bool :=
-  match next_sig l with Some Semic => false | _ => true end.
+(* behind a missing `;` there is no `;`: with a `;` there, nothing would be missing (the `;` of an empty statement
+   would close the statement / declaration).  No condition for the other closing tokens. *)
+Definition gap_open (k : kind) (l : list kind) : bool :=
+  match k, next_sig l with Semic, Some Semic => false | _, _ => true end.
 
 (* a single-fault variant: the original is a valid program (no dangling else), and the gap is a gap *)
-Definition fprog_ok (p : fprog) : bool := prog_ok (orig_prog p) && gap_open (after_prog p).
+Definition fprog_ok (p : fprog) : bool := prog_ok (orig_prog p) && gap_open (gk_prog p) (after_prog p).
 
 (* ---- the mandated tree ---- *)
 Definition gap_err (m : pmsg) (g : nat) : err := {| e_s := g; e_e := g; e_m := EParse m |}.
-(* a node of n tokens at o whose last expected token is missing: one error, the empty range at its last token *)
-Definition finfo (m : pmsg) (o n : nat) : info := {| i_s := o; i_e := o + n; i_errs := [gap_err m (o + n - 1)] |}.
+Definition e_real (m : pmsg) (g : nat) : list err := [gap_err m g].
+Definition e_none (m : pmsg) (g : nat) : list err := [].
 
-Fixpoint fx_stmt (o : nat) (s : fstmt) : stmt :=
+Section Tree.
+Variable E : pmsg -> nat -> list err.
+
+(* the node of n tokens at o whose closing token of kind k is missing behind token g *)
+Definition einfo (k : kind) (o n g : nat) : info := {| i_s := o; i_e := o + n; i_errs := E (msg_of_kind k) g |}.
+
+Fixpoint fxg_stmt (o : nat) (s : fstmt) : stmt :=
   match s with
   | FAsg v c1 e =>
-      SAssign (x_var o v) (Some (x_cmp 0 e, o + len (fl_var v) + len c1 + 1)) (finfo MissingTrailingSemic o (len (ffl_stmt s)))
+      SAssign (x_var o v) (Some (x_cmp 0 e, o + len (fl_var v) + len c1 + 1)) (einfo Semic o (len (ffl_stmt s)) (o + gap_stmt s))
   | FCal c1 f c2 a c3 =>
-      SCall (x_ident o c1 f) (x_sep fl_cmp (x_cmp 0) (o + len c1 + 1 + len c2 + 1) a) (finfo MissingTrailingSemic o (len (ffl_stmt s)))
+      SCall (x_ident o c1 f) (x_sep fl_cmp (x_cmp 0) (o + o_cond c1 c2) a) (einfo Semic o (len (ffl_stmt s)) (o + gap_stmt s))
+  | FCalP c1 f c2 a c4 =>
+      SCall (x_ident o c1 f) (x_sep fl_cmp (x_cmp 0) (o + o_cond c1 c2) a) (einfo RParen o (len (ffl_stmt s)) (o + gap_stmt s))
+  | FIfP c1 c2 e t =>
+      let o_e := o + o_cond c1 c2 in
+      SIf (Some (x_cmp 0 e, o_e)) (Some (x_stmt 0 t, o_e + len (fl_cmp e))) None (einfo RParen o (len (ffl_stmt s)) (o + gap_stmt s))
+  | FIfPE c1 c2 e t c4 s' =>
+      let o_e := o + o_cond c1 c2 in
+      let o_t := o_e + len (fl_cmp e) in
+      SIf (Some (x_cmp 0 e, o_e)) (Some (x_stmt 0 t, o_t)) (Some (x_stmt 0 s', o_t + len (fl_stmt t) + len c4 + 1))
+          (einfo RParen o (len (ffl_stmt s)) (o + gap_stmt s))
+  | FWhlP c1 c2 e b =>
+      let o_e := o + o_cond c1 c2 in
+      SWhile (Some (x_cmp 0 e, o_e)) (Some (x_stmt 0 b, o_e + len (fl_cmp e))) (einfo RParen o (len (ffl_stmt s)) (o + gap_stmt s))
   | FIfT c1 c2 e c3 t =>
-      let o_e := o + len c1 + 1 + len c2 + 1 in
+      let o_e := o + o_cond c1 c2 in
       let o_t := o_e + len (fl_cmp e) + len c3 + 1 in
-      SIf (Some (x_cmp 0 e, o_e)) (Some (fx_stmt 0 t, o_t)) None (mkinfo o (o + len (ffl_stmt s)))
+      SIf (Some (x_cmp 0 e, o_e)) (Some (fxg_stmt 0 t, o_t)) None (mkinfo o (o + len (ffl_stmt s)))
   | FIfE1 c1 c2 e c3 t c4 s' =>
-      let o_e := o + len c1 + 1 + len c2 + 1 in
+      let o_e := o + o_cond c1 c2 in
       let o_t := o_e + len (fl_cmp e) + len c3 + 1 in
       let o_s := o_t + len (ffl_stmt t) + len c4 + 1 in
-      SIf (Some (x_cmp 0 e, o_e)) (Some (fx_stmt 0 t, o_t)) (Some (x_stmt 0 s', o_s)) (mkinfo o (o + len (ffl_stmt s)))
+      SIf (Some (x_cmp 0 e, o_e)) (Some (fxg_stmt 0 t, o_t)) (Some (x_stmt 0 s', o_s)) (mkinfo o (o + len (ffl_stmt s)))
   | FIfE2 c1 c2 e c3 t c4 s' =>
-      let o_e := o + len c1 + 1 + len c2 + 1 in
+      let o_e := o + o_cond c1 c2 in
       let o_t := o_e + len (fl_cmp e) + len c3 + 1 in
       let o_s := o_t + len (fl_stmt t) + len c4 + 1 in
-      SIf (Some (x_cmp 0 e, o_e)) (Some (x_stmt 0 t, o_t)) (Some (fx_stmt 0 s', o_s)) (mkinfo o (o + len (ffl_stmt s)))
+      SIf (Some (x_cmp 0 e, o_e)) (Some (x_stmt 0 t, o_t)) (Some (fxg_stmt 0 s', o_s)) (mkinfo o (o + len (ffl_stmt s)))
   | FWhl c1 c2 e c3 b =>
-      let o_e := o + len c1 + 1 + len c2 + 1 in
+      let o_e := o + o_cond c1 c2 in
       let o_b := o_e + len (fl_cmp e) + len c3 + 1 in
-      SWhile (Some (x_cmp 0 e, o_e)) (Some (fx_stmt 0 b, o_b)) (mkinfo o (o + len (ffl_stmt s)))
-  | FBlk c1 b c2 => SBlock (fx_stmts (o + len c1 + 1) b) (mkinfo o (o + len (ffl_stmt s)))
+      SWhile (Some (x_cmp 0 e, o_e)) (Some (fxg_stmt 0 b, o_b)) (mkinfo o (o + len (ffl_stmt s)))
+  | FBlk c1 b c2 => SBlock (fxg_stmts (o + len c1 + 1) b) (mkinfo o (o + len (ffl_stmt s)))
   end
-with fx_stmts (o : nat) (b : fstmts) : list (stmt * nat) :=
+with fxg_stmts (o : nat) (b : fstmts) : list (stmt * nat) :=
   match b with
-  | FHere s r => (fx_stmt 0 s, o) :: x_stmts (o + len (ffl_stmt s)) r
-  | FLater s r => (x_stmt 0 s, o) :: fx_stmts (o + len (fl_stmt s)) r
+  | FHere s r => (fxg_stmt 0 s, o) :: x_stmts (o + len (ffl_stmt s)) r
+  | FLater s r => (x_stmt 0 s, o) :: fxg_stmts (o + len (fl_stmt s)) r
   end.
 
-Definition fx_decl (d : fdecl) : gdecl :=
+(* the variable declaration without its `;`: a Reference, its own range starts at 0 *)
+Definition fxg_var (d1 d2 : cs) (y : text) (d3 : cs) (t : atype) : vardecl :=
+  let n := len (ffl_var d1 d2 y d3 t) in
+  VValid d1 (Some (x_ident (len d1 + 1) d2 y)) (Some (x_type 0 t, len d1 + 1 + len d2 + 1 + len d3 + 1)) (einfo Semic 0 n (n - 1)).
+
+Definition fxg_decl (d : fdecl) : gdecl :=
   match d with
   | FProc c1 c2 x c3 ps c4 c5 vs b c6 =>
-      let o_ps := len c1 + 1 + len c2 + 1 + len c3 + 1 in
-      let o_vs := o_ps + len (fl_sep fl_param ps) + len c4 + 1 + len c5 + 1 in
+      let o_vs := len (fl_prochead c1 c2 x c3 ps c4 c5) in
       GProc {| pd_doc := c1; pd_name := Some (x_ident (len c1 + 1) c2 x);
-               pd_params := x_sep fl_param x_param o_ps ps;
+               pd_params := x_sep fl_param x_param (len c1 + 1 + len c2 + 1 + len c3 + 1) ps;
                pd_vars := x_vardecls o_vs vs;
-               pd_stmts := fx_stmts (o_vs + len (flat_map fl_vardecl vs)) b;
+               pd_stmts := fxg_stmts (o_vs + len (flat_map fl_vardecl vs)) b;
                pd_info := mkinfo 0 (len (ffl_decl d)) |}
+  | FProcV c1 c2 x c3 ps c4 c5 vs1 d1 d2 y d3 t vs2 b c6 =>
+      let o_vs := len (fl_prochead c1 c2 x c3 ps c4 c5) in
+      let o_v := o_vs + len (flat_map fl_vardecl vs1) in
+      let o_v2 := o_v + len (ffl_var d1 d2 y d3 t) in
+      GProc {| pd_doc := c1; pd_name := Some (x_ident (len c1 + 1) c2 x);
+               pd_params := x_sep fl_param x_param (len c1 + 1 + len c2 + 1 + len c3 + 1) ps;
+               pd_vars := x_vardecls o_vs vs1 ++ (fxg_var d1 d2 y d3 t, o_v) :: x_vardecls o_v2 vs2;
+               pd_stmts := x_stmts (o_v2 + len (flat_map fl_vardecl vs2)) b;
+               pd_info := mkinfo 0 (len (ffl_decl d)) |}
+  | FProcC c1 c2 x c3 ps c4 c5 vs b =>
+      let o_vs := len (fl_prochead c1 c2 x c3 ps c4 c5) in
+      GProc {| pd_doc := c1; pd_name := Some (x_ident (len c1 + 1) c2 x);
+               pd_params := x_sep fl_param x_param (len c1 + 1 + len c2 + 1 + len c3 + 1) ps;
+               pd_vars := x_vardecls o_vs vs;
+               pd_stmts := x_stmts (o_vs + len (flat_map fl_vardecl vs)) b;
+               pd_info := einfo RCurly 0 (len (ffl_decl d)) (len (ffl_decl d) - 1) |}
+  | FType c1 c2 x c3 t =>
+      GType {| td_doc := c1; td_name := Some (x_ident (len c1 + 1) c2 x);
+               td_ty := Some (x_type 0 t, len c1 + 1 + len c2 + 1 + len c3 + 1);
+               td_info := einfo Semic 0 (len (ffl_decl d)) (len (ffl_decl d) - 1) |}
   end.
 
-Definition fexpected (p : fprog) : program :=
+Definition fxg_prog (p : fprog) : program :=
   let o := len (flat_map fl_decl (fp_pre p)) in
-  {| pg_decls := x_decls 0 (fp_pre p) ++ (fx_decl (fp_decl p), o) :: x_decls (o + len (ffl_decl (fp_decl p))) (fp_post p);
+  {| pg_decls := x_decls 0 (fp_pre p) ++ (fxg_decl (fp_decl p), o) :: x_decls (o + len (ffl_decl (fp_decl p))) (fp_post p);
      pg_info := mkinfo 0 (o + len (ffl_decl (fp_decl p)) + len (flat_map fl_decl (fp_post p))) |}.
+End Tree.
 
-(* ---- the faulty tokens are the original's with one Semic taken out ---- *)
+Notation fx_stmt := (fxg_stmt e_real).
+Notation fx_stmts := (fxg_stmts e_real).
+Notation fx_decl := (fxg_decl e_real).
+Notation fexpected := (fxg_prog e_real).
+Notation fx0_stmt := (fxg_stmt e_none).
+Notation fx0_stmts := (fxg_stmts e_none).
+Notation fx0_decl := (fxg_decl e_none).
+Notation fexpected0 := (fxg_prog e_none).
+
+(* ---- the faulty tokens are the original's with one token taken out ---- *)
 Definition ins {A} (n : nat) (x : A) (l : list A) : list A := firstn n l ++ x :: skipn n l.
 
 Lemma ins_end {A} (x : A) l : ins (len l) x l = l ++ [x].
@@ -225,8 +371,11 @@ Proof.
   rewrite firstn_all2 by lia. rewrite skipn_all2 by lia. rewrite <- app_assoc. reflexivity.
 Qed.
 
-Lemma ins_cons {A} n (x y : A) l : ins (S n) x (y :: l) = y :: ins n x l.
-Proof. reflexivity. Qed.
+Lemma ins_pre {A} n m (x : A) pre l : n = len pre + m -> ins n x (pre ++ l) = pre ++ ins m x l.
+Proof. intros ->. apply ins_app_r. Qed.
+
+Lemma ins_mid {A} n (x : A) pre l : n = len pre -> ins n x (pre ++ l) = pre ++ x :: l.
+Proof. intros ->. rewrite <- (Nat.add_0_r (len pre)), ins_app_r. reflexivity. Qed.
 
 Lemma ins_length {A} n (x : A) l : len (ins n x l) = S (len l).
 Proof.
@@ -238,87 +387,133 @@ Proof. apply map_length. Qed.
 
 Ltac flens :=
   cbn [fl_var fl_fac fl_mul fl_add fl_cmp fl_type fl_stmt fl_stmts ffl_stmt ffl_stmts];
+  unfold o_cond, ffl_var, fl_prochead;
   repeat (rewrite app_length || rewrite cm_len || cbn [length]).
 
-Scheme fstmt_mind := Induction for fstmt Sort Prop
-  with fstmts_mind := Induction for fstmts Sort Prop.
-Combined Scheme fstmt_mutind from fstmt_mind, fstmts_mind.
+Ltac norm_app := repeat (rewrite <- app_assoc || cbn [app]).
 
 Lemma fl_var_pos v : 1 <= len (fl_var v).
 Proof. destruct v as [c x|v c1 e c2]; cbn [fl_var]; rewrite !app_length; cbn [length]; lia. Qed.
 
+Lemma fl_cmp_pos e : 1 <= len (fl_cmp e).
+Proof.
+  assert (Hf : forall f, 1 <= len (fl_fac f)).
+  { destruct f as [c l|v|c f|c1 e' c2]; cbn [fl_fac]; try (rewrite !app_length; cbn [length]; lia). apply fl_var_pos. }
+  assert (Hm : forall m, 1 <= len (fl_mul m)) by (destruct m; cbn [fl_mul]; [apply Hf | rewrite !app_length; cbn [length]; lia]).
+  assert (Ha : forall a, 1 <= len (fl_add a)) by (destruct a; cbn [fl_add]; [apply Hm | rewrite !app_length; cbn [length]; lia]).
+  destruct e; cbn [fl_cmp]; [apply Ha | rewrite !app_length; cbn [length]; lia].
+Qed.
+
 Lemma ffl_pos :
   (forall s, gap_stmt s < len (ffl_stmt s)) /\ (forall b, gap_stmts b < len (ffl_stmts b)).
 Proof.
-  apply fstmt_mutind; intros; cbn [gap_stmt gap_stmts]; flens; lia.
+  apply fstmt_mutind; intros; cbn [gap_stmt gap_stmts]; flens; try lia;
+    match goal with e : acmp |- _ => pose proof (fl_cmp_pos e); lia end.
 Qed.
 
-Lemma ins_pre {A} n m (x : A) pre l : n = len pre + m -> ins n x (pre ++ l) = pre ++ ins m x l.
-Proof. intros ->. apply ins_app_r. Qed.
-
-Ltac norm_app := repeat (rewrite <- app_assoc || cbn [app]).
-
 Lemma ffl_ins :
-  (forall s, ins (S (gap_stmt s)) Semic (ffl_stmt s) = fl_stmt (orig_stmt s)) /\
-  (forall b, ins (S (gap_stmts b)) Semic (ffl_stmts b) = fl_stmts (orig_stmts b)).
+  (forall s, ins (S (gap_stmt s)) (gk_stmt s) (ffl_stmt s) = fl_stmt (orig_stmt s)) /\
+  (forall b, ins (S (gap_stmts b)) (gk_stmts b) (ffl_stmts b) = fl_stmts (orig_stmts b)).
 Proof.
   apply fstmt_mutind.
-  - intros v c1 e. cbn [gap_stmt orig_stmt fl_stmt]. pose proof (fl_var_pos v).
+  - intros v c1 e. cbn [gap_stmt gk_stmt orig_stmt fl_stmt]. pose proof (fl_var_pos v).
     replace (S (len (ffl_stmt (FAsg v c1 e)) - 1)) with (len (ffl_stmt (FAsg v c1 e))) by (flens; lia).
     rewrite ins_end. cbn [ffl_stmt cm map]. norm_app. reflexivity.
-  - intros c1 f c2 a c3. cbn [gap_stmt orig_stmt fl_stmt].
+  - intros c1 f c2 a c3. cbn [gap_stmt gk_stmt orig_stmt fl_stmt].
     replace (S (len (ffl_stmt (FCal c1 f c2 a c3)) - 1)) with (len (ffl_stmt (FCal c1 f c2 a c3))) by (flens; lia).
     rewrite ins_end. cbn [ffl_stmt cm map]. norm_app. reflexivity.
-  - intros c1 c2 e c3 t IH. cbn [orig_stmt fl_stmt]. rewrite <- IH.
+  - intros c1 f c2 a c4. cbn [gap_stmt gk_stmt orig_stmt fl_stmt].
+    replace (ffl_stmt (FCalP c1 f c2 a c4)) with ((cm c1 ++ Ident f :: cm c2 ++ LParen :: fl_sep fl_cmp a) ++ cm c4 ++ [Semic])
+      by (cbn [ffl_stmt]; norm_app; reflexivity).
+    rewrite ins_mid by (flens; lia). cbn [cm map]. norm_app. reflexivity.
+  - intros c1 c2 e t. cbn [gap_stmt gk_stmt orig_stmt fl_stmt]. pose proof (fl_cmp_pos e).
+    replace (ffl_stmt (FIfP c1 c2 e t)) with ((cm c1 ++ KIf :: cm c2 ++ LParen :: fl_cmp e) ++ fl_stmt t)
+      by (cbn [ffl_stmt]; norm_app; reflexivity).
+    rewrite ins_mid by (flens; lia). cbn [cm map]. norm_app. reflexivity.
+  - intros c1 c2 e t c4 s. cbn [gap_stmt gk_stmt orig_stmt fl_stmt]. pose proof (fl_cmp_pos e).
+    replace (ffl_stmt (FIfPE c1 c2 e t c4 s)) with ((cm c1 ++ KIf :: cm c2 ++ LParen :: fl_cmp e) ++ fl_stmt t ++ cm c4 ++ KElse :: fl_stmt s)
+      by (cbn [ffl_stmt]; norm_app; reflexivity).
+    rewrite ins_mid by (flens; lia). cbn [cm map]. norm_app. reflexivity.
+  - intros c1 c2 e b. cbn [gap_stmt gk_stmt orig_stmt fl_stmt]. pose proof (fl_cmp_pos e).
+    replace (ffl_stmt (FWhlP c1 c2 e b)) with ((cm c1 ++ KWhile :: cm c2 ++ LParen :: fl_cmp e) ++ fl_stmt b)
+      by (cbn [ffl_stmt]; norm_app; reflexivity).
+    rewrite ins_mid by (flens; lia). cbn [cm map]. norm_app. reflexivity.
+  - intros c1 c2 e c3 t IH. cbn [orig_stmt fl_stmt gk_stmt]. rewrite <- IH.
     replace (ffl_stmt (FIfT c1 c2 e c3 t)) with ((cm c1 ++ KIf :: cm c2 ++ LParen :: fl_cmp e ++ cm c3 ++ [RParen]) ++ ffl_stmt t)
       by (cbn [ffl_stmt]; norm_app; reflexivity).
     rewrite (ins_pre _ (S (gap_stmt t))) by (cbn [gap_stmt]; flens; lia). norm_app. reflexivity.
-  - intros c1 c2 e c3 t IH c4 s. cbn [orig_stmt fl_stmt]. rewrite <- IH.
+  - intros c1 c2 e c3 t IH c4 s. cbn [orig_stmt fl_stmt gk_stmt]. rewrite <- IH.
     replace (ffl_stmt (FIfE1 c1 c2 e c3 t c4 s))
       with ((cm c1 ++ KIf :: cm c2 ++ LParen :: fl_cmp e ++ cm c3 ++ [RParen]) ++ ffl_stmt t ++ cm c4 ++ KElse :: fl_stmt s)
       by (cbn [ffl_stmt]; norm_app; reflexivity).
     rewrite (ins_pre _ (S (gap_stmt t))) by (cbn [gap_stmt]; flens; lia).
     rewrite ins_app_l by (pose proof (proj1 ffl_pos t); lia). norm_app. reflexivity.
-  - intros c1 c2 e c3 t c4 s IH. cbn [orig_stmt fl_stmt]. rewrite <- IH.
+  - intros c1 c2 e c3 t c4 s IH. cbn [orig_stmt fl_stmt gk_stmt]. rewrite <- IH.
     replace (ffl_stmt (FIfE2 c1 c2 e c3 t c4 s))
       with ((cm c1 ++ KIf :: cm c2 ++ LParen :: fl_cmp e ++ cm c3 ++ RParen :: fl_stmt t ++ cm c4 ++ [KElse]) ++ ffl_stmt s)
       by (cbn [ffl_stmt]; norm_app; reflexivity).
     rewrite (ins_pre _ (S (gap_stmt s))) by (cbn [gap_stmt]; flens; lia). norm_app. reflexivity.
-  - intros c1 c2 e c3 b IH. cbn [orig_stmt fl_stmt]. rewrite <- IH.
+  - intros c1 c2 e c3 b IH. cbn [orig_stmt fl_stmt gk_stmt]. rewrite <- IH.
     replace (ffl_stmt (FWhl c1 c2 e c3 b)) with ((cm c1 ++ KWhile :: cm c2 ++ LParen :: fl_cmp e ++ cm c3 ++ [RParen]) ++ ffl_stmt b)
       by (cbn [ffl_stmt]; norm_app; reflexivity).
     rewrite (ins_pre _ (S (gap_stmt b))) by (cbn [gap_stmt]; flens; lia). norm_app. reflexivity.
-  - intros c1 b IH c2. cbn [orig_stmt fl_stmt]. rewrite <- IH.
+  - intros c1 b IH c2. cbn [orig_stmt fl_stmt gk_stmt]. rewrite <- IH.
     replace (ffl_stmt (FBlk c1 b c2)) with ((cm c1 ++ [LCurly]) ++ ffl_stmts b ++ cm c2 ++ [RCurly])
       by (cbn [ffl_stmt]; norm_app; reflexivity).
     rewrite (ins_pre _ (S (gap_stmts b))) by (cbn [gap_stmt]; flens; lia).
     rewrite ins_app_l by (pose proof (proj2 ffl_pos b); lia). norm_app. reflexivity.
-  - intros s IH r. cbn [orig_stmts fl_stmts ffl_stmts gap_stmts]. rewrite <- IH.
+  - intros s IH r. cbn [orig_stmts fl_stmts ffl_stmts gap_stmts gk_stmts]. rewrite <- IH.
     rewrite ins_app_l by (pose proof (proj1 ffl_pos s); lia). reflexivity.
-  - intros s r IH. cbn [orig_stmts fl_stmts ffl_stmts gap_stmts]. rewrite <- IH.
+  - intros s r IH. cbn [orig_stmts fl_stmts ffl_stmts gap_stmts gk_stmts]. rewrite <- IH.
     rewrite (ins_pre _ (S (gap_stmts r))) by lia. reflexivity.
 Qed.
 
-Lemma ffl_decl_ins d : ins (S (gap_decl d)) Semic (ffl_decl d) = fl_decl (orig_decl d).
-Proof.
-  destruct d as [c1 c2 x c3 ps c4 c5 vs b c6]. cbn [orig_decl fl_decl]. rewrite <- (proj2 ffl_ins b).
-  replace (ffl_decl (FProc c1 c2 x c3 ps c4 c5 vs b c6))
-    with ((cm c1 ++ KProc :: cm c2 ++ Ident x :: cm c3 ++ LParen :: fl_sep fl_param ps ++ cm c4 ++ RParen :: cm c5 ++ LCurly ::
-           flat_map fl_vardecl vs) ++ ffl_stmts b ++ cm c6 ++ [RCurly])
-    by (cbn [ffl_decl]; norm_app; reflexivity).
-  rewrite (ins_pre _ (S (gap_stmts b))) by (cbn [gap_decl]; flens; lia).
-  rewrite ins_app_l by (pose proof (proj2 ffl_pos b); lia). norm_app. reflexivity.
-Qed.
+Lemma fl_prochead_eq c1 c2 x c3 ps c4 c5 vs b c6 :
+  fl_decl (DProc c1 c2 x c3 ps c4 c5 vs b c6) = fl_prochead c1 c2 x c3 ps c4 c5 ++ flat_map fl_vardecl vs ++ fl_stmts b ++ cm c6 ++ [RCurly].
+Proof. unfold fl_prochead. cbn [fl_decl]. norm_app. reflexivity. Qed.
+
+Lemma fl_fvar d1 d2 y d3 t : fl_vardecl (fvar d1 d2 y d3 t) = ffl_var d1 d2 y d3 t ++ [Semic].
+Proof. unfold fl_vardecl, fvar, ffl_var. cbn [v_c1 v_c2 v_x v_c3 v_t v_c4 cm map]. norm_app. reflexivity. Qed.
+
+Lemma ffl_var_pos d1 d2 y d3 t : 4 <= len (ffl_var d1 d2 y d3 t).
+Proof. assert (1 <= len (fl_type t)) by (destruct t; cbn [fl_type]; rewrite !app_length; cbn [length]; lia). flens. lia. Qed.
 
 Lemma gap_decl_lt d : gap_decl d < len (ffl_decl d).
 Proof.
-  destruct d as [c1 c2 x c3 ps c4 c5 vs b c6]. pose proof (proj2 ffl_pos b). cbn [gap_decl ffl_decl]. flens. lia.
+  destruct d as [c1 c2 x c3 ps c4 c5 vs b c6|c1 c2 x c3 ps c4 c5 vs1 d1 d2 y d3 t vs2 b c6|c1 c2 x c3 ps c4 c5 vs b|c1 c2 x c3 t];
+    cbn [gap_decl ffl_decl].
+  - pose proof (proj2 ffl_pos b). rewrite !app_length. lia.
+  - pose proof (ffl_var_pos d1 d2 y d3 t). rewrite !app_length. lia.
+  - assert (1 <= len (fl_prochead c1 c2 x c3 ps c4 c5)) by (flens; lia). rewrite !app_length. lia.
+  - rewrite !app_length. cbn [length]. lia.
 Qed.
 
-(* the faulty token vector is the original one with the `;` behind token number gap_prog taken out *)
-Theorem fflatten_ins p : ins (S (gap_prog p)) Semic (fflatten p) = flatten (orig_prog p).
+Lemma ffl_decl_ins d : ins (S (gap_decl d)) (gk_decl d) (ffl_decl d) = fl_decl (orig_decl d).
 Proof.
-  unfold fflatten, flatten, orig_prog, gap_prog. cbn [a_decls a_ceof]. rewrite flat_map_app. cbn [flat_map].
+  destruct d as [c1 c2 x c3 ps c4 c5 vs b c6|c1 c2 x c3 ps c4 c5 vs1 d1 d2 y d3 t vs2 b c6|c1 c2 x c3 ps c4 c5 vs b|c1 c2 x c3 t];
+    cbn [orig_decl gk_decl].
+  - rewrite fl_prochead_eq, <- (proj2 ffl_ins b). cbn [ffl_decl gap_decl].
+    replace (fl_prochead c1 c2 x c3 ps c4 c5 ++ flat_map fl_vardecl vs ++ ffl_stmts b ++ cm c6 ++ [RCurly])
+      with ((fl_prochead c1 c2 x c3 ps c4 c5 ++ flat_map fl_vardecl vs) ++ ffl_stmts b ++ cm c6 ++ [RCurly]) by (norm_app; reflexivity).
+    rewrite (ins_pre _ (S (gap_stmts b))) by (rewrite app_length; lia).
+    rewrite ins_app_l by (pose proof (proj2 ffl_pos b); lia). norm_app. reflexivity.
+  - rewrite fl_prochead_eq, flat_map_app. cbn [flat_map]. rewrite fl_fvar. cbn [ffl_decl gap_decl]. pose proof (ffl_var_pos d1 d2 y d3 t).
+    replace (fl_prochead c1 c2 x c3 ps c4 c5 ++ flat_map fl_vardecl vs1 ++ ffl_var d1 d2 y d3 t ++ flat_map fl_vardecl vs2 ++ fl_stmts b ++ cm c6 ++ [RCurly])
+      with ((fl_prochead c1 c2 x c3 ps c4 c5 ++ flat_map fl_vardecl vs1 ++ ffl_var d1 d2 y d3 t) ++ flat_map fl_vardecl vs2 ++ fl_stmts b ++ cm c6 ++ [RCurly])
+      by (norm_app; reflexivity).
+    rewrite ins_mid by (rewrite !app_length; lia). norm_app. reflexivity.
+  - rewrite fl_prochead_eq. pose proof (gap_decl_lt (FProcC c1 c2 x c3 ps c4 c5 vs b)) as Hlt. cbn [gap_decl] in *.
+    replace (S (len (ffl_decl (FProcC c1 c2 x c3 ps c4 c5 vs b)) - 1)) with (len (ffl_decl (FProcC c1 c2 x c3 ps c4 c5 vs b))) by lia.
+    rewrite ins_end. cbn [ffl_decl cm map]. norm_app. reflexivity.
+  - pose proof (gap_decl_lt (FType c1 c2 x c3 t)) as Hlt. cbn [gap_decl] in *.
+    replace (S (len (ffl_decl (FType c1 c2 x c3 t)) - 1)) with (len (ffl_decl (FType c1 c2 x c3 t))) by lia.
+    rewrite ins_end. cbn [ffl_decl fl_decl cm map]. norm_app. reflexivity.
+Qed.
+
+(* the faulty token vector is the original one with the closing token behind token number gap_prog taken out *)
+Theorem fflatten_ins p : ins (S (gap_prog p)) (gk_prog p) (fflatten p) = flatten (orig_prog p).
+Proof.
+  unfold fflatten, flatten, orig_prog, gap_prog, gk_prog. cbn [a_decls a_ceof]. rewrite flat_map_app. cbn [flat_map].
   rewrite <- ffl_decl_ins.
   rewrite (ins_pre _ (S (gap_decl (fp_decl p)))) by lia.
   rewrite ins_app_l by (pose proof (gap_decl_lt (fp_decl p)); lia). norm_app. reflexivity.
@@ -331,3 +526,6 @@ Lemma gap_prog_lt p : gap_prog p < len (fflatten p).
 Proof.
   unfold gap_prog, fflatten. pose proof (gap_decl_lt (fp_decl p)). rewrite !app_length. lia.
 Qed.
+
+Lemma fl_orig_decl_len d : len (fl_decl (orig_decl d)) = S (len (ffl_decl d)).
+Proof. rewrite <- ffl_decl_ins. apply ins_length. Qed.
